@@ -82,7 +82,7 @@ def build_loop(fns):
         B = s.load(p, ("deref", ("local", dB)), "usize").t
         C = s.load(p, ("deref", ("local", dC)), "usize").t
         nb = s.load(p, s.resolve(p, symex.parse_place(nbytes_place)), "usize").t
-        size_keys = [k for k in p.store if re.search(r"\.%d$" % fd["new_data_size"], k) and k.startswith("**")]
+        size_keys = [k for k in p.store if re.match(r"\*\*_\d+(#v\d+)?(\.0)?\.%d$" % fd["new_data_size"], k)]
         if len(size_keys) != 1:
             raise LookupError("new_data_size read not identified: %s" % size_keys)
         size0 = "it." + size_keys[0]
